@@ -55,6 +55,15 @@ func vf_Int64N(name string, bits int) int64   { return int64(vfS.model[name]) }
 func vf_Int32N(name string, bits int) int32   { return int32(vfS.model[name]) }
 func vf_IntN(name string, bits int) int       { return int(vfS.model[name]) }
 func vf_Uint32N(name string, bits int) uint32 { return uint32(vfS.model[name]) }
+func vf_Uint32Split(name string, n int) uint32 {
+	switch {
+	case n <= 0:
+		return uint32(vfS.model[name+".lo"])
+	case n >= 32:
+		return uint32(vfS.model[name+".hi"])
+	}
+	return uint32(vfS.model[name+".hi"])<<uint(32-n) | uint32(vfS.model[name+".lo"])
+}
 func vf_Choose(name string, n int) int {
 	v := int(vfS.model["choose:"+name])
 	if v >= n {
@@ -124,6 +133,7 @@ func vf_Observe(label string, v any) {
 }
 func vf_Known(id string, c bool)   {}
 func vf_SameObject(a, b any) bool  { return vfSame(a, b) }
+func vf_SameString(a, b string) bool { return a == b }
 func vf_ExpectPanic()              { vfS.expectPanic = true }
 func vf_Stop()                     { panic(vfStop{}) }
 func vf_Cover(label string)        {}
